@@ -386,6 +386,8 @@ def gen_options(rng, D, prof, noise_mode):
             del o["noise_size_det"]
             o["noise_size"] = _r(10 ** rng.uniform(-3, 0), 3)
         maybe("noise_size", 0.3, lambda: _r(10 ** rng.uniform(-2, 0.5), 3))
+    # threshold of the initial noise test only (documented meaning); valid, rarely set
+    maybe("tol_noise", 0.06, lambda: _choice(rng, [1e-3, 1e-5, 1e-8]))
     return o
 
 
